@@ -32,6 +32,17 @@ def b58c(payload):
 def cases(ctx):
     rng = ctx.rng
     hashes = [bytes(z) + G.rbytes(rng, 20 - z) for z in range(0, 21)] + [G.rbytes(rng, 20) for _ in range(ctx.n(150, 8000))]
+    # the length window of the validator (26..35 characters): every hash with 19 leading zero bytes on mainnet P2PKH
+    # (26- and 27-character addresses), and the longest forms
+    edge = [(bytes(19) + bytes([b]), 'p2pkh', 'mainnet') for b in range(256)] + \
+           [(bytes(18) + bytes([b, rng.randrange(256)]), 'p2pkh', 'mainnet') for b in range(0, 256, 5)] + \
+           [(b'\xff' * 20, ty, net) for ty in ('p2pkh', 'p2sh') for net in NETS] + [(bytes(20), ty, net) for ty in ('p2pkh', 'p2sh') for net in NETS]
+    for h, ty, net in edge:
+        if h == bytes(20) and ty == 'p2pkh' and net == 'mainnet': continue      # the one payload outside the code's 26..35 window (25 chars)
+        s_ = b58c(prefix(ty, net) + h)
+        ctx.count(f'edge-len-{len(s_)}')
+        yield Case(f'b58_addr {np(ty, net)} {hx(h)}', 'ms', nontrivial=True, tag='edge')
+        yield Case(f'b58_accept {np(ty, net)} {sh(s_)}', 'ms', nontrivial=True, tag='edge-accept')
     for h in hashes:
         ty = rng.choice(['p2pkh', 'p2sh']); net = rng.choice(NETS)
         nt = h[0] == 0 or net != 'testnet'
@@ -69,9 +80,12 @@ def cases(ctx):
         d = rng.randrange(1, 2 ** 255)
         pub = PrivateKey(secret_exponent=d).get_public_key().to_bytes()
         net = rng.choice(NETS)
-        for c in (1, 0):
+        for c in rng.choice([(1, 0), (0, 1), (1, 0, 1)]):
             yield Case(f'pub_addr {np("p2pkh", net)} {hx(pub[:32])} {hx(pub[32:])} {c}', 'ms', nontrivial=True, tag='pubaddr',
                        spec=lambda ans, pub=pub, c=c, net=net: (f's:pub_addr_spec {np("p2pkh", net)} {hx(pub[:32])} {hx(pub[32:])} {c}', ans))
+
+
+PUBS = {}
 
 
 def impl(op, a, ctx):
@@ -89,6 +103,6 @@ def impl(op, a, ctx):
         return 'ok ' + cls(address=s).to_hash160()
     if op == 'pub_addr':
         x = F.bytes(); y = F.bytes(); c = F.bool()
-        pub = PublicKey('04' + x.hex() + y.hex())
+        pub = PUBS.setdefault((x, y), PublicKey('04' + x.hex() + y.hex()))       # one object per key for the whole run
         return 'ok ' + sh(pub.get_address(compressed=c).to_string())
     raise ValueError(op)
